@@ -2,6 +2,7 @@ package main
 
 import (
 	"fmt"
+	"regexp"
 	"go/types"
 	"math/big"
 	"sort"
@@ -136,8 +137,15 @@ func sortOf(t types.Type) string {
 
 // typeName gives a stable short name of a type for component names.
 func typeName(t types.Type) string {
-	return types.TypeString(t, func(p *types.Package) string { return shortPkg(p.Path()) })
+	s := types.TypeString(t, func(p *types.Package) string { return shortPkg(p.Path()) })
+	// byte and rune are aliases: one component per underlying machine type
+	s = byteRe.ReplaceAllString(s, "uint8")
+	s = runeRe.ReplaceAllString(s, "int32")
+	return s
 }
+
+var byteRe = regexp.MustCompile(`\bbyte\b`)
+var runeRe = regexp.MustCompile(`\brune\b`)
 
 func underName(t types.Type) string {
 	// component names for boxes / element memories are keyed by underlying type, because Go allows
@@ -280,6 +288,8 @@ type Run struct {
 	fatal  string
 	knownExcl map[string]Term
 	errGlobals []Term
+	ifaceSpec *FuncSpec
+	ifaceAssigns []Expr
 }
 
 func (r *Run) warn(f string, a ...interface{}) {
